@@ -335,7 +335,7 @@ class SimRNG:
                 perm = np.argsort(self._gen().random(n), kind='stable')
             if mode != 'random':
                 self._fire('shuffle-' + mode)
-        self._event('shuffle', n=n, shape_key=(n,), perm=perm if n <= 64 else None, policy='x')
+        self._event('shuffle', n=n, shape_key=(n,), perm=perm, policy='x')
         x[:] = np.array(x)[perm] if isinstance(x, np.ndarray) else [x[i] for i in perm]
 
     def permutation(self, x):
